@@ -20,7 +20,9 @@ NAMES = ["id", "user_id", "first_name_2", "a", "x1", "y_1", "get_2fa", "_lead", 
          "a1_b2_c3", "on_event", "on_progress", "_", "z_9_z", "very_long_parameter_name_with_many_words", "r#type", "r#match", "is_ok", "i", "n2",
          "größe_max", "naïve", "user_名前"]     # (serde_derive itself panics on a non-ASCII FIRST letter under rename_all)
 VALUE_TYPES = [("i32", False), ("String", False), ("Option<i32>", True), ("Option<String>", True), ("Vec<u8>", False), ("Msg", False),
-               ("Option<Msg>", True), ("bool", False), ("Option<Vec<Option<i32>>>", True), ("&str", False)]
+               ("Option<Msg>", True), ("bool", False), ("Option<Vec<Option<i32>>>", True), ("&str", False),
+               # project types that merely share a name with a framework type the statement lists only in its qualified form
+               ("Request", False), ("models::Request", False), ("Option<Request>", True)]
 CASES = ["camelCase", "snake_case", "PascalCase", "SCREAMING_SNAKE_CASE", "kebab-case", "SCREAMING-KEBAB-CASE", "lowercase", "UPPERCASE"]
 HECK_KEY = {"camelCase": "camelCase", "snake_case": "snake_case"}
 
@@ -53,7 +55,7 @@ def gen_commands(rnd, n, idx):
 
 def project_src(cmds):
     src = [rg.PRELUDE, "use tauri::{AppHandle, State, Window, WebviewWindow, Runtime, ipc::Channel};\nuse std::sync::Mutex;\n\n",
-           "pub struct AppState { pub n: i32 }\n\n", rg.struct_src("Msg", [("text", "String")])]
+           "pub struct AppState { pub n: i32 }\n\n", rg.struct_src("Msg", [("text", "String")]), rg.struct_src("Request", [("url", "String")])]
     for c in cmds:
         generic = "<R: Runtime>" if any("<R>" in p[1] for p in c["params"]) else ""
         ps = ", ".join("%s%s: %s" % ("mut " if m and p[0] != "_" else "", p[0], p[1]) for p, m in zip(c["params"], c["mut"]))
